@@ -550,6 +550,14 @@ def run_case(case, ctx):
                     cs[1], R.dtype_fxp(s, w, nf), how, codes_.tolist(), want, dt_after, rd.tolist()), key='store.complex_indexed')
             if how in ('dtype-string', 'resize-dtype', 'dtype-string-raw', 'dtype-string-fxp'):
                 try:
+                    # (on a fresh object as well: the real value is the first thing written by index)
+                    xf = Fxp(rv_, dtype=dts, rounding=r, overflow=o) if how != 'dtype-string-raw' else Fxp([1, 0, 1], dtype=dts, raw=True, rounding=r, overflow=o)
+                    if how == 'resize-dtype':
+                        xf = Fxp(rv_, s, w, nf, rounding=r, overflow=o)
+                        xf.resize(dtype=dts)
+                    xf[2] = rv_[0]
+                    if 'complex' not in str(xf.dtype) or not np.iscomplexobj(np.asarray(xf.get_val())):
+                        ctx.violation('complex_lost', 'a real value written by index into a fresh %s object (%s) made it real: dtype %s' % (dts, how, xf.dtype), key='store.complex_lost')
                     xd[0] = rv_[2]
                     if 'complex' not in str(xd.dtype) or not np.iscomplexobj(np.asarray(xd.get_val())):
                         ctx.violation('complex_lost', 'a real value written by index into a %s object (%s) made it real: dtype %s' % (dts, how, xd.dtype), key='store.complex_lost')
